@@ -124,10 +124,78 @@ let pfx_spec () =
     done
   with End_of_file -> ()
 
+(* ---------------- RTR mode: same script and same trace format as harness/rtr_run.c ---------------- *)
+let z_of_int i = if i = 0 then Z0 else if i > 0 then Zpos (pos_of_int i) else Zneg (pos_of_int (-i))
+let int_of_z = function Z0 -> 0 | Zpos p -> int_of_pos p | Zneg p -> - (int_of_pos p)
+let hex_of_bytes l = String.concat "" (List.map (fun b -> Printf.sprintf "%02x" (int_of_z b)) l)
+let bytes_of_hex h = List.init (String.length h / 2) (fun i -> z_of_int (int_of_string ("0x" ^ String.sub h (2 * i) 2)))
+let kid_to_key kid =
+  (List.init 20 (fun i -> z_of_int (((kid lsr 8) + i * 7) land 255)), List.init 91 (fun i -> z_of_int ((kid + i * 3) land 255)))
+let str_prec (((((v6, p), len), mx), asn), src) =
+  Printf.sprintf "%s:%s/%d-%d:%d:%d" (if v6 then "6" else "4") (string_of_bits p) (int_of_z len) (int_of_z mx) (int_of_z asn) (int_of_z src)
+let str_krec (((asn, ski), spki), src) =
+  Printf.sprintf "K:%d:%s:%s:%d" (int_of_z asn) (hex_of_bytes ski) (hex_of_bytes spki) (int_of_z src)
+
+let print_titem = function
+  | TOpen (ok, t) -> Printf.printf "OPEN %s t=%d\n" (if ok then "ok" else "fail") (int_of_z t)
+  | TClose -> print_string "CLOSE\n"
+  | TSend b -> Printf.printf "SEND %s\n" (hex_of_bytes b)
+  | TSendFail c -> Printf.printf "SENDFAIL %d\n" (int_of_z c)
+  | TRecvN (t, n) -> Printf.printf "RECV timeout=%d -> %d\n" (int_of_z t) (int_of_z n)
+  | TRecvWB (t, c) -> Printf.printf "RECV timeout=%d -> WOULDBLOCK t=%d\n" (int_of_z t) (int_of_z c)
+  | TRecvErr (t, c) -> Printf.printf "RECV timeout=%d -> ERR %d\n" (int_of_z t) (int_of_z c)
+  | TRecvStop t -> Printf.printf "RECV timeout=%d -> STOP\n" (int_of_z t)
+  | TSleep n -> Printf.printf "SLEEP %d\n" (int_of_z n)
+  | TState s -> Printf.printf "STATE %d\n" (int_of_z s)
+  | TPfx (a, r) -> Printf.printf "PFXCB %s%s\n" (if a then "+" else "-") (str_prec r)
+  | TKey (a, k) -> Printf.printf "KEYCB %s%s\n" (if a then "+" else "-") (str_krec k)
+  | TEnd w -> Printf.printf "END %s\n" (if int_of_z w = 1 then "recv-script-exhausted" else "open-script-exhausted")
+  | TStopping -> print_string "STOPPING\n"
+  | TDump (tag, f, ps, ks) ->
+    let f = Array.of_list (List.map int_of_z f) in
+    Printf.printf "DUMP %s state=%d version=%d session=%d reqsess=%d serial=%d last_update=%d refresh=%d expire=%d retry=%d resetting=%d t=%d\n"
+      (match int_of_z tag with 0 -> "init" | 1 -> "stopped" | _ -> "final")
+      f.(0) f.(1) f.(2) f.(3) f.(4) f.(5) f.(6) f.(7) f.(8) f.(9) f.(10);
+    List.iter (fun l -> Printf.printf "REC %s\n" l) (List.sort compare (List.map str_prec ps @ List.map str_krec ks));
+    print_string "ENDDUMP\n"
+
+let rtr_model () =
+  let cfg = ref (3600, 7200, 600, 0) and pre_p = ref [] and pre_k = ref [] and opens = ref [] and sends = ref [] and evs = ref [] in
+  (try
+     while true do
+       let line = input_line stdin in
+       let w = List.filter (fun s -> s <> "") (String.split_on_char ' ' line) in
+       let ios = int_of_string in
+       match w with
+       | ["cfg"; a; b; c; d] -> cfg := (ios a, ios b, ios c, ios d)
+       | ["pre"; "pfx"; fam; bits; len; mx; asn; src] ->
+         pre_p := !pre_p @ [(((((fam = "6", bits_of_string bits), z_of_int (ios len)), z_of_int (ios mx)), z_of_int (ios asn)), z_of_int (ios src))]
+       | ["pre"; "key"; asn; kid; src] ->
+         let (ski, spki) = kid_to_key (ios kid) in pre_k := !pre_k @ [(((z_of_int (ios asn), ski), spki), z_of_int (ios src))]
+       | "open" :: l -> opens := !opens @ List.map (fun x -> x <> "0") l
+       | "send" :: l -> sends := !sends @ List.map (fun x -> if x.[0] = 'e' then z_of_int (- (ios (String.sub x 1 (String.length x - 1)))) else z_of_int (ios x)) l
+       | ["ev"; "data"; h] -> if String.length h >= 2 then evs := EvData (bytes_of_hex h) :: !evs
+       | ["ev"; "err"; c] -> evs := EvErr (z_of_int (ios c)) :: !evs
+       | ["ev"; "wait"; c] -> evs := EvWait (z_of_int (ios c)) :: !evs
+       | ["ev"; "stop"] -> evs := EvStop :: !evs
+       | ["run"] -> raise End_of_file
+       | _ -> ()
+     done
+   with End_of_file -> ());
+  let (a, b, c, d) = !cfg in
+  if not (init_ok (z_of_int a) (z_of_int b) (z_of_int c)) then print_string "INIT -2\n"
+  else begin
+    print_string "INIT 0\n";
+    let big = nat_of_int 200000 in
+    List.iter print_titem
+      (run_script big big (z_of_int a) (z_of_int b) (z_of_int c) (z_of_int d) !pre_p !pre_k (List.rev !evs) !opens !sends)
+  end
+
 let () =
   match Array.to_list Sys.argv with
   | _ :: "pfx" :: "model" :: rest ->
     let b i = match List.nth_opt rest i with Some "1" -> true | _ -> false in
     pfx_model (b 0) (b 1)
   | _ :: "pfx" :: "spec" :: _ -> pfx_spec ()
+  | _ :: "rtr" :: _ -> rtr_model ()
   | _ -> prerr_endline "usage: model pfx model|spec [hz_zero hz_deep]"; exit 2
